@@ -28,6 +28,15 @@ def wrappedWindow (cx cy : Rat) (nx ny sx sy : Nat) : List Int × List Int :=
 scan moves from `old` to `pos` (one coordinate); `x - np.round(x)` is the fractional part in `[-1/2, 1/2]` -/
 def subpixelShift (pos old : Rat) : Rat := probeShift pos old (roundHalfEven pos) (roundHalfEven old)
 
+/-- Net sub-pixel displacement of the stored probe over one sweep of `reconstruct()`: the sweep starts with
+`old_position = round(object_px_padding)` (generated `sweepStart`), every visited position (skipped empty patterns are not
+visited) shifts the probe by `subpixelShift pos old`, and the sweep ends with `fft_shift(probes, round(old) − old)`
+(generated `shiftBack`) for the last position the probe was moved to. -/
+def sweepNetShift (pad : Rat) (visited : List Rat) : Rat :=
+  let start := sweepStart (roundHalfEven pad)
+  let r := visited.foldl (fun (acc : Rat × Rat) p => (acc.1 + subpixelShift p acc.2, p)) ((0 : Rat), start)
+  r.1 + shiftBack r.2 (roundHalfEven r.2)
+
 /-! ### scan positions -/
 
 structure ScanParams where
